@@ -147,7 +147,7 @@ def handle (st : DriverC01.St) (l : Line) : Option (DriverC01.St × List String 
       | some cfg, some iv => match predictOps st cfg iv inner with
         | some tr =>
           let pred := showTrace (byKey tr)
-          if writesOf t == writesOf pred then none else some ("write operations differ from the model's program: model " ++ pred ++ " observed " ++ t)
+          if writesOf t == writesOf pred then none else some ("info: write operations differ from the model's program: model " ++ pred ++ " observed " ++ t)
         | none => none
       | _, _ => none
     let note := match note, traceNote with
@@ -179,7 +179,7 @@ def handle (st : DriverC01.St) (l : Line) : Option (DriverC01.St × List String 
         | some _, some p =>
           let tr := p.trace (metaStore st pre)
           if (t.drop 2).toString == showTrace tr && n == "n=" ++ toString tr.length then none
-          else some ("fault_meta " ++ w ++ ": operation trace differs from the model: model n=" ++ toString tr.length ++ " t=" ++
+          else some ("info: fault_meta " ++ w ++ ": operation trace differs from the model: model n=" ++ toString tr.length ++ " t=" ++
             showTrace tr ++ " observed " ++ n ++ " " ++ t)
         | _, _ => none
       | _ => none)
@@ -189,7 +189,7 @@ def handle (st : DriverC01.St) (l : Line) : Option (DriverC01.St × List String 
         match st.cfg, predictMeta st pre w with
         | some _, some tr =>
           if writesOf (t.drop 2).toString == writesOf (showTrace tr) then none
-          else some ("fault_meta " ++ w ++ ": write operations differ from the model's program: model " ++ showTrace tr ++ " observed " ++ t)
+          else some ("info: fault_meta " ++ w ++ ": write operations differ from the model's program: model " ++ showTrace tr ++ " observed " ++ t)
         | _, _ => none
       | _ => none)
     let notes := notes ++ wnotes
